@@ -50,6 +50,7 @@ type options struct {
 	verbose bool
 	solver  string
 	noNat   bool
+	noCross bool
 	params  map[string]int
 	budget  time.Duration
 }
@@ -413,6 +414,8 @@ func cmdRun(args []string) int {
 			opt.verbose = true
 		case "--no-native":
 			opt.noNat = true
+		case "--no-cross":
+			opt.noCross = true
 		case "--budget":
 			i++
 			opt.budget, _ = time.ParseDuration(args[i])
@@ -516,6 +519,32 @@ func runProperty(prop string, ps *propSpec, opt options) int {
 		applyEngineParams(h, params)
 		prog.Explore(h, opt.workers, opt.solver)
 		hev := ev.addHarness(hs, h)
+		// cross-solver diff (thorough tier): the quick-size instance is explored twice, with z3
+		// 4.8.12 and with z3 5.1 (z3-new); path counts and verdicts must agree
+		if opt.tier == "thorough" && !opt.noCross {
+			qp := map[string]int{}
+			for k, v := range hs.Params["quick"] {
+				qp[k] = v
+			}
+			mk := func() *symex.HarnessRun {
+				x := &symex.HarnessRun{Name: hs.Name, Entry: entry, Params: qp, Unwind: 16, MaxSteps: 40_000_000, MaxDecisions: 200000,
+					QueryTimeout: 60000, IncrTimeout: 4000, Preemptions: 2, RaceCheck: hs.Threads, ContinueAfterRace: hs.Threads}
+				applyEngineParams(x, qp)
+				x.Deadline = time.Now().Add(6 * time.Minute)
+				return x
+			}
+			ha, hb := mk(), mk()
+			prog.Explore(ha, opt.workers, "z3")
+			prog.Explore(hb, opt.workers, "z3-new")
+			if !ha.Truncated && !hb.Truncated {
+				ev.CrossChecked++
+				if ha.PathsDone != hb.PathsDone || len(ha.Violations) != len(hb.Violations) || ha.Infeasible != hb.Infeasible || len(ha.Inconclusive) != len(hb.Inconclusive) {
+					ev.CrossDisagree++
+					problems = append(problems, fmt.Sprintf("cross-solver disagreement on %s (quick-size instance): z3 paths=%d violations=%d, z3-new paths=%d violations=%d",
+						hs.Name, ha.PathsDone, len(ha.Violations), hb.PathsDone, len(hb.Violations)))
+				}
+			}
+		}
 		fmt.Printf("[%s] %s: paths=%d done=%d infeasible=%d decisions=%d queries(feas sat/unsat/unk=%d/%d/%d oblig=%d/%d/%d) solver=%.1fs wall=%.1fs\n",
 			prop, hs.Name, h.Paths, h.PathsDone, h.Infeasible, h.Decisions, h.Feas[0], h.Feas[1], h.Feas[2], h.Oblig[0], h.Oblig[1], h.Oblig[2],
 			float64(h.SolverNs)/1e9, h.WallSecs)
